@@ -33,7 +33,7 @@ import (
 	"github.com/imroc/req/v3/verifharness/hk"
 )
 
-func main() { hk.Main("C10", runC10, nil) }
+func main() { hk.Main("C10", runC10, syncers) }
 
 // ---------- program ----------
 
@@ -217,77 +217,103 @@ func toCookies(l [][2]string) []*http.Cookie {
 	return cs
 }
 
-// execute runs the program on a fresh real client and returns what happened.
-func execute(p *program) (o observation) {
-	ctx := newScriptCtx()
-	cancel := func() { ctx.end(context.Canceled) }
-	defer cancel()
-	var opened []*os.File // *os.File upload sources handed to SetFileReader
-	defer func() {
-		for _, fh := range opened {
-			fh.Close()
+// One request of a program run: its observation, scripted context and attempt counter.  Every
+// closure handed to the client or the request (conditions, hooks, interval functions, the
+// transport stub) finds the run state of the request it is working for through the
+// request's context, so that several requests can be built from ONE client first and sent
+// afterwards.
+type runState struct {
+	p       *program
+	o       observation
+	ctx     *scriptCtx
+	attempt int        // index of the attempt in flight
+	opened  []*os.File // *os.File upload sources handed to SetFileReader
+	r       *req.Request
+	probe   *[]int // non-nil: conditions / hooks only record their id here (see probeFuncs)
+}
+
+type rsKey struct{}
+
+func stateOfCtx(ctx context.Context) *runState {
+	rs, _ := ctx.Value(rsKey{}).(*runState)
+	return rs
+}
+
+func stateOf(resp *req.Response) *runState { return stateOfCtx(resp.Request.Context()) }
+
+// roundTrip: the scripted transport for one request.
+func (rs *runState) roundTrip(q *http.Request) (*http.Response, error) {
+	p := rs.p
+	_ = p
+	rs.attempt++
+	if rs.attempt >= len(rs.p.Script)+2 {
+		// runaway retry loop (every script ends in a cancellation that must stop it): end it
+		// the hard way; the oracle reports attempts:beyond-script
+		if rs.attempt >= len(rs.p.Script)+40 {
+			panic("harness: runaway retry loop")
 		}
-	}()
-	attempt := -1 // index of the attempt in flight
+		return nil, fmt.Errorf("E2! harness stop: %w", context.Canceled)
+	}
+	w := wireObs{Method: q.Method, URL: q.URL.Scheme + "://" + q.URL.Host + q.URL.Path, Path: q.URL.Path, Query: q.URL.RawQuery,
+		Header: map[string][]string{}, CLen: q.ContentLength}
+	for k, vs := range q.Header {
+		w.Header[k] = append([]string{}, vs...)
+	}
+	for _, ck := range q.Cookies() {
+		w.Cookies = append(w.Cookies, [2]string{ck.Name, ck.Value})
+	}
+	if q.Body != nil {
+		b, rerr := io.ReadAll(q.Body)
+		q.Body.Close()
+		w.HasBody, w.Body, w.BodyErr = true, string(b), rerr != nil
+	}
+	rs.o.Wires = append(rs.o.Wires, w)
+	var oc outcome
+	if rs.attempt < len(rs.p.Script) {
+		oc = rs.p.Script[rs.attempt]
+	} else {
+		oc = outcome{Kind: "ctxcancel"} // never reached: every script ends with a cancel
+	}
+	switch oc.Kind {
+	case "status":
+		return &http.Response{StatusCode: oc.Status, Status: fmt.Sprintf("%d X", oc.Status), Proto: "HTTP/1.1", ProtoMajor: 1, ProtoMinor: 1,
+			Header: http.Header{"Content-Type": {"text/plain"}}, Body: io.NopCloser(strings.NewReader("ok")), ContentLength: 2, Request: q}, nil
+	case "statuscancel", "statusexpired":
+		// the response arrives complete and without error; the request's context ends
+		// before the loop decides about a retry
+		if oc.Kind == "statuscancel" {
+			rs.ctx.end(context.Canceled)
+		} else {
+			rs.ctx.end(context.DeadlineExceeded)
+		}
+		return &http.Response{StatusCode: oc.Status, Status: fmt.Sprintf("%d X", oc.Status), Proto: "HTTP/1.1", ProtoMajor: 1, ProtoMinor: 1,
+			Header: http.Header{"Content-Type": {"text/plain"}}, Body: io.NopCloser(strings.NewReader("ok")), ContentLength: 2, Request: q}, nil
+	case "err":
+		return nil, errors.New("E1! transport failure")
+	case "wrapcancel":
+		return nil, fmt.Errorf("E2! wrapped: %w", context.Canceled)
+	case "deadline":
+		return nil, fmt.Errorf("E4! wrapped: %w", context.DeadlineExceeded)
+	case "expired": // the request's context passes its deadline during this attempt
+		rs.ctx.end(context.DeadlineExceeded)
+		return nil, fmt.Errorf("E5! wrapped: %w", context.DeadlineExceeded)
+	default: // ctxcancel
+		rs.ctx.end(context.Canceled)
+		return nil, rs.ctx.Err() // context.Canceled (q.Context() may be a derived context that learns of it asynchronously)
+	}
+}
+
+// newClient: a fresh real client whose transport is the scripted stub, with the program's
+// client-level configuration (headers, cookies, form, query, path parameters ...).
+func newClient(p *program) *req.Client {
 	c := req.C()
 	c.GetTransport().WrapRoundTripFunc(func(rt http.RoundTripper) req.HttpRoundTripFunc {
 		return func(q *http.Request) (*http.Response, error) {
-			attempt++
-			if attempt >= len(p.Script)+2 {
-				// runaway retry loop (every script ends in a cancellation that must stop it): end it
-				// the hard way; the oracle reports attempts:beyond-script
-				if attempt >= len(p.Script)+40 {
-					panic("harness: runaway retry loop")
-				}
-				return nil, fmt.Errorf("E2! harness stop: %w", context.Canceled)
+			rs := stateOfCtx(q.Context())
+			if rs == nil {
+				return nil, errors.New("harness: request without run state")
 			}
-			w := wireObs{Method: q.Method, URL: q.URL.Scheme + "://" + q.URL.Host + q.URL.Path, Path: q.URL.Path, Query: q.URL.RawQuery,
-				Header: map[string][]string{}, CLen: q.ContentLength}
-			for k, vs := range q.Header {
-				w.Header[k] = append([]string{}, vs...)
-			}
-			for _, ck := range q.Cookies() {
-				w.Cookies = append(w.Cookies, [2]string{ck.Name, ck.Value})
-			}
-			if q.Body != nil {
-				b, rerr := io.ReadAll(q.Body)
-				q.Body.Close()
-				w.HasBody, w.Body, w.BodyErr = true, string(b), rerr != nil
-			}
-			o.Wires = append(o.Wires, w)
-			var oc outcome
-			if attempt < len(p.Script) {
-				oc = p.Script[attempt]
-			} else {
-				oc = outcome{Kind: "ctxcancel"} // never reached: every script ends with a cancel
-			}
-			switch oc.Kind {
-			case "status":
-				return &http.Response{StatusCode: oc.Status, Status: fmt.Sprintf("%d X", oc.Status), Proto: "HTTP/1.1", ProtoMajor: 1, ProtoMinor: 1,
-					Header: http.Header{"Content-Type": {"text/plain"}}, Body: io.NopCloser(strings.NewReader("ok")), ContentLength: 2, Request: q}, nil
-			case "statuscancel", "statusexpired":
-				// the response arrives complete and without error; the request's context ends
-				// before the loop decides about a retry
-				if oc.Kind == "statuscancel" {
-					ctx.end(context.Canceled)
-				} else {
-					ctx.end(context.DeadlineExceeded)
-				}
-				return &http.Response{StatusCode: oc.Status, Status: fmt.Sprintf("%d X", oc.Status), Proto: "HTTP/1.1", ProtoMajor: 1, ProtoMinor: 1,
-					Header: http.Header{"Content-Type": {"text/plain"}}, Body: io.NopCloser(strings.NewReader("ok")), ContentLength: 2, Request: q}, nil
-			case "err":
-				return nil, errors.New("E1! transport failure")
-			case "wrapcancel":
-				return nil, fmt.Errorf("E2! wrapped: %w", context.Canceled)
-			case "deadline":
-				return nil, fmt.Errorf("E4! wrapped: %w", context.DeadlineExceeded)
-			case "expired": // the request's context passes its deadline during this attempt
-				ctx.end(context.DeadlineExceeded)
-				return nil, fmt.Errorf("E5! wrapped: %w", context.DeadlineExceeded)
-			default: // ctxcancel
-				cancel()
-				return nil, ctx.Err() // context.Canceled (q.Context() may be a derived context that learns of it asynchronously)
-			}
+			return rs.roundTrip(q)
 		}
 	})
 	sh := &p.Shape
@@ -313,34 +339,52 @@ func execute(p *program) (o observation) {
 		b := sh.MPBoundary
 		c.SetMultipartBoundaryFunc(func() string { return b })
 	}
-	mkCond := func(cs *condSpec) req.RetryConditionFunc {
-		return func(resp *req.Response, err error) bool {
-			st, ec := viewOf(resp, err)
-			o.Conds = append(o.Conds, callObs{cs.ID, attempt, st, ec})
-			return condEval(cs, st, err != nil)
+	return c
+}
+
+func mkCond(cs *condSpec) req.RetryConditionFunc {
+	return func(resp *req.Response, err error) bool {
+		rs := stateOf(resp)
+		if rs.probe != nil {
+			*rs.probe = append(*rs.probe, cs.ID)
+			return false
+		}
+		st, ec := viewOf(resp, err)
+		rs.o.Conds = append(rs.o.Conds, callObs{cs.ID, rs.attempt, st, ec})
+		return condEval(cs, st, err != nil)
+	}
+}
+
+func mkHook(hs *hookSpec) req.RetryHookFunc {
+	return func(resp *req.Response, err error) {
+		rs := stateOf(resp)
+		if rs.probe != nil {
+			*rs.probe = append(*rs.probe, hs.ID)
+			return
+		}
+		st, ec := viewOf(resp, err)
+		rs.o.Hooks = append(rs.o.Hooks, callObs{hs.ID, resp.Request.RetryAttempt, st, ec})
+		if hs.Kind == "sethdr" {
+			resp.Request.SetHeader(hs.Key, hs.Val)
 		}
 	}
-	mkHook := func(hs *hookSpec) req.RetryHookFunc {
-		return func(resp *req.Response, err error) {
-			st, ec := viewOf(resp, err)
-			o.Hooks = append(o.Hooks, callObs{hs.ID, resp.Request.RetryAttempt, st, ec})
-			if hs.Kind == "sethdr" {
-				resp.Request.SetHeader(hs.Key, hs.Val)
-			}
+}
+
+func mkIval(id int) req.GetRetryIntervalFunc {
+	return func(resp *req.Response, att int) time.Duration {
+		rs := stateOf(resp)
+		st, _ := viewOf(resp, resp.Err)
+		rs.o.Ivals = append(rs.o.Ivals, callObs{id, att, st, errCode(resp.Err)})
+		if id%3 == 0 {
+			return 2 * time.Millisecond // a positive wait (interruptible by the context)
 		}
+		return 0
 	}
-	mkIval := func(id int) req.GetRetryIntervalFunc {
-		return func(resp *req.Response, att int) time.Duration {
-			st, ec := viewOf(resp, resp.Err)
-			_ = ec
-			o.Ivals = append(o.Ivals, callObs{id, att, st, errCode(resp.Err)})
-			if id%3 == 0 {
-				return 2 * time.Millisecond // a positive wait (interruptible by the context)
-			}
-			return 0
-		}
-	}
-	for _, op := range p.ClientOps {
+}
+
+// applyClientOps: client-level retry setters.
+func applyClientOps(c *req.Client, ops []rop) {
+	for _, op := range ops {
 		switch op.Op {
 		case "count":
 			c.SetCommonRetryCount(op.N)
@@ -360,7 +404,15 @@ func execute(p *program) (o observation) {
 			c.AddCommonRetryHook(mkHook(op.Hook))
 		}
 	}
-	r := c.R().SetContext(ctx)
+}
+
+// buildRequest: c.R() with the program's request-level setters, shape and middlewares.
+func buildRequest(c *req.Client, p *program) *runState {
+	rs := &runState{p: p, ctx: newScriptCtx(), attempt: -1}
+	rs.ctx.rs = rs
+	sh := &p.Shape
+	r := c.R().SetContext(rs.ctx)
+	rs.r = r
 	for _, op := range p.ReqOps {
 		switch op.Op {
 		case "count":
@@ -436,7 +488,7 @@ func execute(p *program) (o observation) {
 				r.SetFile(f.Param, uploadPath(f))
 			case "osfile":
 				if fh, err := os.Open(uploadPath(f)); err == nil {
-					opened = append(opened, fh)
+					rs.opened = append(rs.opened, fh)
 					r.SetFileReader(f.Param, f.Name, fh)
 				}
 			default:
@@ -447,12 +499,24 @@ func execute(p *program) (o observation) {
 	for i := range p.After {
 		a, id := p.After[i], i
 		r.OnAfterResponse(func(_ *req.Client, resp *req.Response) error {
-			if a.FailAt == attempt {
+			if a.FailAt == rs.attempt {
 				return fmt.Errorf("AFTER%d failed", id)
 			}
 			return nil
 		})
 	}
+	return rs
+}
+
+// send fires the request and records the result.
+func (rs *runState) send() {
+	defer func() {
+		rs.ctx.end(context.Canceled)
+		for _, fh := range rs.opened {
+			fh.Close()
+		}
+	}()
+	sh := &rs.p.Shape
 	u := baseHost + sh.path()
 	if sh.RawQuery != "" {
 		u += "?" + sh.RawQuery
@@ -464,32 +528,40 @@ func execute(p *program) (o observation) {
 		defer close(done)
 		defer func() {
 			if e := recover(); e != nil {
-				o.Panicked = fmt.Sprint(e)
-				o.PanicStack = string(debug.Stack())
+				rs.o.Panicked = fmt.Sprint(e)
+				rs.o.PanicStack = string(debug.Stack())
 			}
 		}()
-		resp, err = r.Send(sh.Method, u)
+		resp, err = rs.r.Send(sh.Method, u)
 	}()
 	select {
 	case <-done:
 	case <-time.After(60 * time.Second):
-		o.Panicked = "watchdog: call did not return within 60s"
-		cancel()
+		rs.o.Panicked = "watchdog: call did not return within 60s"
+		rs.ctx.end(context.Canceled)
 		<-done
 	}
 	if resp == nil {
-		o.RespNil = true
-		o.Status, o.Err = -1, errCode(err)
+		rs.o.RespNil = true
+		rs.o.Status, rs.o.Err = -1, errCode(err)
 		return
 	}
-	o.Status, o.Err = viewOf(resp, resp.Err)
+	rs.o.Status, rs.o.Err = viewOf(resp, resp.Err)
 	if resp.Err != nil {
-		o.ErrText = resp.Err.Error()
+		rs.o.ErrText = resp.Err.Error()
 	}
-	o.ErrVsResp = resp.Err == err
-	o.Attempt = r.RetryAttempt
-	o.UpFront = resp.Err == req.VerifC10ErrUnreplayable
-	return
+	rs.o.ErrVsResp = resp.Err == err
+	rs.o.Attempt = rs.r.RetryAttempt
+	rs.o.UpFront = resp.Err == req.VerifC10ErrUnreplayable
+}
+
+// execute runs the program on a fresh real client and returns what happened.
+func execute(p *program) observation {
+	c := newClient(p)
+	applyClientOps(c, p.ClientOps)
+	rs := buildRequest(c, p)
+	rs.send()
+	return rs.o
 }
 
 // ---------- oracle: the property, decided on the observation without the Coq model ----------
@@ -891,6 +963,7 @@ func (p *program) expectedBody() (string, bool) {
 // scriptCtx: a context the script ends - cancelled or past its deadline - at a chosen attempt.
 type scriptCtx struct {
 	context.Context
+	rs   *runState
 	mu   sync.Mutex
 	err  error
 	done chan struct{}
@@ -901,6 +974,13 @@ func newScriptCtx() *scriptCtx {
 }
 
 func (c *scriptCtx) Done() <-chan struct{} { return c.done }
+
+func (c *scriptCtx) Value(k interface{}) interface{} {
+	if _, ok := k.(rsKey); ok {
+		return c.rs
+	}
+	return c.Context.Value(k)
+}
 
 func (c *scriptCtx) Err() error {
 	c.mu.Lock()
